@@ -299,6 +299,39 @@ pub fn main(args: &[String]) {
             }
         }
     }
+    // model tie: the whole implementation of every method (types, argument expressions, return expression)
+    let lines: Vec<String> = cases.iter().map(|c| c.sexp().replacen("(c01 ", "(c02cpp ", 1)).collect();
+    match crate::model::run_model("C02", &lines) {
+        Err(e) => rep.disagree("*", "model-driver", "", &e),
+        Ok(model) => {
+            for ((case, label), m) in cases.iter().zip(&labels).zip(&model) {
+                if m == "bad-case" {
+                    rep.disagree(label, "cpp-method-model", "", m);
+                    continue;
+                }
+                let o = tool::run_backend(&case.rust(), "cpp");
+                let mut norm: std::collections::BTreeMap<String, String> = Default::default();
+                for frag in m.split(" ;; ").filter(|f| !f.is_empty()) {
+                    let Some((file, text)) = frag.split_once(" => ") else { continue };
+                    let file = file.trim_start_matches("cpp/");
+                    rep.count("cpp-method-rows");
+                    if !norm.contains_key(file) {
+                        norm.insert(file.to_string(), o.files.get(file).map(|t| tool::norm_ws(t)).unwrap_or_default());
+                    }
+                    if !norm[file].contains(text) {
+                        // what the backend printed for that method, for the report
+                        let key = text.split('(').next().unwrap_or("").rsplit(' ').next().unwrap_or("").to_string();
+                        let real = norm[file].find(&format!(" {key}(")).map(|at| {
+                            let start = norm[file][..at].rfind("inline ").unwrap_or(at);
+                            let end = norm[file][at..].find(" } inline ").map(|e| at + e + 2).unwrap_or((at + 600).min(norm[file].len()));
+                            norm[file][start..end].to_string()
+                        }).unwrap_or_else(|| "<method not found>".into());
+                        rep.disagree(label, "cpp-method", &real, text);
+                    }
+                }
+            }
+        }
+    }
     // end to end
     for chunk_start in (0..cases.len()).step_by(40) {
         let chunk = &cases[chunk_start..(chunk_start + 40).min(cases.len())];
